@@ -394,3 +394,47 @@ Definition judge_clisub (rec : list Z) : Z :=
     end
   | None => 1
   end.
+
+(* ---------- cmr-ctu: (2) complement operations -r / -c, (1) -N: a complemented matrix that is not TU ---------- *)
+Definition opt_of (x : Z) : option nat := if x <? 0 then None else Some (Z.to_nat x).
+Definition all_opts (k : nat) : list (option nat) := None :: map Some (iota 0 k).
+
+(* record: mode r c infmt outfmt nin inbytes.. rc hasout nout outbytes..      (r, c: index from 0, -1 = none)
+   mode 2: cmr-ctu IN OUT -r R -c C must write the complement of doc/ctu (row operation, then column operation);
+   mode 1: cmr-ctu IN -N OUT: for a matrix that is not complement TU the file must hold one of its complements and that
+           complement must not be TU; for a complement TU matrix nothing is written.
+   0 accepted (incl. non-binary input and matrices too large for the oracle); 1 malformed record; 380 tool failed;
+   381 no output; 382 output unreadable; 383 output is not the requested complement; 384 output is not a non-TU complement
+   of the input; 385 a matrix was written although the input is complement TU *)
+Definition judge_clictu (rec : list Z) : Z :=
+  match (mode <- dZ ;; r <- dZ ;; c <- dZ ;; infmt <- dZ ;; outfmt <- dZ ;; inb <- dlist dZ ;; rc <- dZ ;; hasout <- dbool ;;
+         outb <- dlist dZ ;; dend (mode, r, c, infmt, outfmt, inb, rc, hasout, outb)) rec with
+  | Some ((mode, r, c, infmt, outfmt, inb, rc, hasout, outb), _) =>
+    match parse infmt 0 inb with
+    | TErr => 0
+    | TOk m n M =>
+      if negb (is_binary M) then 0
+      else if mode =? 2 then
+        (if negb (opt_lt (opt_of r) m && opt_lt (opt_of c) n) || ((r <? 0) && (c <? 0)) then 0
+         else if negb (rc =? 0) then 380
+         else if negb hasout then 381
+         else match parse outfmt 0 outb with
+              | TErr => 382
+              | TOk m' n' M' =>
+                if Nat.eqb m' m && Nat.eqb n' n && mat_eqb M' (complement_spec m n M (opt_of r) (opt_of c)) then 0 else 383
+              end)
+      else if negb (Nat.leb (m * n) 12) then 0
+      else if negb (rc =? 0) then 380
+      else if ctu_bf m n M then (if hasout && negb (Nat.eqb (List.length outb) 0) then 385 else 0)
+      else if negb hasout then 381
+      else match parse outfmt 0 outb with
+           | TErr => 382
+           | TOk m' n' M' =>
+             if Nat.eqb m' m && Nat.eqb n' n &&
+                existsb (fun ro => existsb (fun co => mat_eqb M' (complement_spec m n M ro co)) (all_opts n)) (all_opts m) &&
+                negb (tu_bf m n M')
+             then 0 else 384
+           end
+    end
+  | None => 1
+  end.
